@@ -122,7 +122,20 @@ func gatherRun(t *testing.T, out *ndjson, st *gaStats, k int, mode string) (step
 		if err != nil {
 			t.Fatal(err)
 		}
+		heldCh := make(chan struct{})
+		heldOnce := false
 		_ = a.OnCandidate(func(c ice.Candidate) {
+			// mode "held": the application is slow with the first candidate of the first cycle - it returns only after the
+			// Restart; what was published meanwhile waits in the queue and is delivered afterwards, as it was published
+			r.mu.Lock()
+			block := mode == "held" && c != nil && !heldOnce
+			if block {
+				heldOnce = true
+			}
+			r.mu.Unlock()
+			if block {
+				<-heldCh
+			}
 			r.mu.Lock()
 			defer r.mu.Unlock()
 			if c == nil {
@@ -179,6 +192,11 @@ func gatherRun(t *testing.T, out *ndjson, st *gaStats, k int, mode string) (step
 			synctest.Wait()
 			st.At[at]++
 			r.log(map[string]any{"ev": "Restart", "completed": gs == ice.GatheringStateComplete, "at": at, "ok": rerr == nil})
+			if mode == "held" {
+				close(heldCh)
+				synctest.Wait()
+				r.flush()
+			}
 			drainOld := func() {
 				for i := 0; i < 100 && r.step(1, old); i++ {
 					r.flush()
@@ -241,7 +259,7 @@ func TestGatherRestart(t *testing.T) {
 	total := gatherRun(t, out, st, -1, "probe")
 	st.Runs++
 	st.Points = total + 1
-	modes := []string{"before", "after", "mid"}
+	modes := []string{"before", "after", "mid", "held"}
 	for k := 0; k <= total; k++ {
 		for _, m := range modes {
 			for i := 0; i < job.Reps; i++ {
